@@ -381,6 +381,31 @@ class Held:
         self.deg.asdict(), self.size.asdict(), self.multi.asdict(), list(self.nodes), list(self.edges)
 
 
+def touch(H):
+    """Call the view / stat queries once and discard the results: warms anything a function might remember about
+    this network object, so that the evaluation at the final state would expose an answer computed from an earlier
+    structure."""
+    try:
+        directed = type(H).__name__ == "DiHypergraph"
+        n, e = H.nodes, H.edges
+        n.degree.asdict(), e.size.asdict(), e.order.aslist(), list(n), list(e), H.num_nodes, H.num_edges
+        n.memberships(), e.members(), e.members(dtype=dict)
+        n.degree(order=1).asdict(), e.size(degree=1).asdict()
+        n.multi(["degree"]).asdict(), n.degree.aspandas(), e.size.asnumpy()
+        n.filterby("degree", 1, "geq"), e.filterby("size", 2), n.isolates(), e.empty()
+        if directed:
+            n.in_degree.asdict(), n.out_degree.asdict(), e.head_size.asdict(), e.tail_size.asdict(), n.dimemberships(), e.dimembers()
+        else:
+            e.singletons(), e.maximal(), e.maximal(strict=True), e.duplicates(), n.duplicates(), n.isolates(ignore_singletons=True)
+            for x in list(n)[:3]:
+                n.neighbors(x), n.neighbors(x, 2)
+            for x in list(e)[:3]:
+                e.neighbors(x)
+            e.lookup(list(n)[:2]), n.lookup(list(e)[:1])
+    except Exception:  # noqa: BLE001
+        pass
+
+
 def inv_views(ctx):
     rep = Rep(ctx)
     spec = ctx.spec
@@ -388,8 +413,10 @@ def inv_views(ctx):
     try:
         twin = eval(hist[0], ctx.ns)
         held = Held(twin)
+        touch(twin)
         for expr in hist[1:]:
             explore.apply_op(ctx.ns, twin, expr)
+            touch(twin)
         H = ctx.obj
         nodes, edges = list(H.nodes), list(H.edges)
         if list(held.nodes) != list(twin.nodes) or list(held.edges) != list(twin.edges) or list(twin.nodes) != nodes \
@@ -418,10 +445,14 @@ def inv_views(ctx):
                 if new != surv + created:
                     rep.bad("insertion-order", f"{ctx.op}: {kind} listed as {new}; before the call {old} "
                             f"(survivors should keep their order and precede new IDs)")
-        if held.directed:
-            directed_definitions(rep, H)
-        else:
-            undirected_definitions(rep, H)
+        for obj, tag in ((H, ""), (twin, "[object queried at every earlier state of its history] ")):
+            k = len(rep.out)
+            if held.directed:
+                directed_definitions(rep, obj)
+            else:
+                undirected_definitions(rep, obj)
+            if tag:
+                rep.out[k:] = [(m, tag + msg, t) for m, msg, t in rep.out[k:]]
     except Exception as e:  # noqa: BLE001
         rep.bad("api-raises", f"evaluating views/stats raised {type(e).__name__}: {e}")
     return rep.out
